@@ -140,3 +140,8 @@ package cashu
 //@   tags C18 C14
 //@   safety C06 C18
 //@   loop 1 invariant pos >= 0
+
+//@ func (Unit).String
+//@   tags C09 C20
+//@   safety C06
+//@   ensures @sat [C09,C20] unit == Sat ==> result == "sat"
